@@ -148,13 +148,14 @@ def decorate(sc: scenario.Scenario, seed: int, adversarial=False, mixin_field=Tr
                         ObjectFieldNode(name=name("text"), value=lit()),
                         ObjectFieldNode(name=name("tags"), value=ListValueNode(values=(lit(), lit()))))),
                     directives=())
-                d.variable_definitions = tuple(vdefs + [vs, vn, vi])
+                use_var = rng.random() < 0.5
+                d.variable_definitions = tuple(vdefs + [vs, vn] + ([vi] if use_var else []))
                 args = [ArgumentNode(name=name("s"), value=lit()),
                         ArgumentNode(name=name("ss"), value=ListValueNode(values=(lit(), VariableNode(name=name("c02s"))))),
                         ArgumentNode(name=name("n"), value=VariableNode(name=name("c02n"))),
-                        ArgumentNode(name=name("inp"), value=rng.choice([
-                            VariableNode(name=name("c02i")),
-                            ObjectValueNode(fields=(ObjectFieldNode(name=name("text"), value=lit()),))]))]
+                        ArgumentNode(name=name("inp"), value=(
+                            VariableNode(name=name("c02i")) if use_var else
+                            ObjectValueNode(fields=(ObjectFieldNode(name=name("text"), value=lit()),))))]
                 rng.shuffle(args)
                 f = FieldNode(alias=name("c02x") if rng.random() < 0.7 else None, name=name("c02Echo"),
                               arguments=tuple(args), directives=((tag(rng, lit),) if rng.random() < 0.5 else ()),
